@@ -506,6 +506,16 @@ def relayout(a, lay):
         return big[::2, ::2]
     if lay == 'neg' and a.size:                   # negative strides
         return a[::-1, ::-1].copy()[::-1, ::-1]
+    if lay == 'T':                                # transposed view of the transposed data
+        return np.ascontiguousarray(a.T).T
+    if lay == 'strided23' and a.size:             # a[::2, ::3] of a larger array
+        big = np.zeros((2 * a.shape[0], 3 * a.shape[1]), dtype=a.dtype)
+        big[::2, ::3] = a
+        return big[::2, ::3]
+    if lay == 'ro':                               # non-writeable
+        a = a.copy()
+        a.setflags(write=False)
+        return a
     return a
 
 
@@ -552,14 +562,14 @@ def call_index(ms, case, arrs=None):
         arrs = build_arrays(case)
     f = getattr(ms, fn)
     params = {} if case.get('omit_defaults') else dict(case.get('params', {}))     # optional arguments left at their defaults
-    if case.get('name'):
-        params['name'] = case['name']
+    if 'name' in case:
+        params['name'] = case['name']              # also the falsy names None and ''
     with np.errstate(all='ignore'):
         if case.get('style') == 'kw':
             res = f(**dict(zip(ARGS[fn], arrs)), **params)
         else:
             res = f(*arrs, **params)
-    if case.get('name') and res.name != case['name']:
+    if 'name' in case and res.name != case['name'] and not (case['name'] in (None, '') and res.name in (None, '')):
         raise AssertionError('%s: result is named %r, asked for %r' % (fn, res.name, case['name']))
     return res
 
@@ -1070,6 +1080,126 @@ def gen_magnitude_cases(rng, quick=True):
     return out
 
 
+def theme_cases(rng, quick=True):
+    """appended stream (theme audit): layout of EACH band in turn, per-position Dask splits, falsy names, degenerate content"""
+    idx, tc = [], []
+    lays = ['F', 'T', 'strided23', 'neg', 'ro', 'view']
+    rows, cols = 4, 5
+
+    def bands_of(dt, nb, kind='small'):
+        return [[[gen_value(rng, dt, kind) for _ in range(cols)] for _ in range(rows)] for _ in range(nb)]
+    for fn in (['ndvi', 'evi', 'ebbi', 'gci'] if quick else ALL_FN):
+        nb = len(ARGS[fn])
+        for pos in range(nb):
+            for lay in (rng.sample(lays, 2) if quick else lays):
+                dt = rng.choice(['float32', 'float64', 'int32', 'uint16'])
+                layout = [None] * nb
+                layout[pos] = lay
+                idx.append(dict(fn=fn, dtypes=[dt] * nb, kind='layout-%s@band%d' % (lay, pos), bands=bands_of(dt, nb),
+                                params=dict(DEFAULTS.get(fn, {})), layout=layout))
+            # Dask: this band split differently from the others (same shape, same per-axis maximum chunk)
+            chunks = [[[3, 1], [3, 2]] for _ in range(nb)]
+            chunks[pos] = [[1, 3], [2, 3]]
+            dt = rng.choice(['float32', 'int16', 'float64'])
+            idx.append(dict(fn=fn, dtypes=[dt] * nb, kind='dask-split@band%d' % pos, bands=bands_of(dt, nb),
+                            params=dict(DEFAULTS.get(fn, {})), chunks=chunks))
+    nan = float('nan')
+    for fn in (['ndvi', 'savi', 'sipi'] if quick else ALL_FN):
+        nb = len(ARGS[fn])
+        b = bands_of('float64', nb)
+        b[rng.randrange(nb)] = [[nan] * cols for _ in range(rows)]
+        idx.append(dict(fn=fn, dtypes=['float64'] * nb, kind='all-nan-band', bands=b, params=dict(DEFAULTS.get(fn, {}))))
+        one = [[[nan] * cols for _ in range(rows)] for _ in range(nb)]
+        for k in range(nb):
+            one[k][1][2] = float(3 + k)
+        idx.append(dict(fn=fn, dtypes=['float32'] * nb, kind='single-valid', bands=one, params=dict(DEFAULTS.get(fn, {})),
+                        name=rng.choice([None, ''])))
+    for pos in range(3):
+        for lay in (rng.sample(lays, 2) if quick else lays):
+            dt = rng.choice(['float64', 'int32', 'uint16'])
+            layout = [None] * 3
+            layout[pos] = lay
+            tc.append(dict(fn='true_color', dtypes=[dt] * 3, kind='layout-%s@band%d' % (lay, pos), bands=bands_of(dt, 3),
+                           params=dict(nodata=rng.choice([0, 1, 5]), c=10.0, th=0.125), dims=['y', 'x'], layout=layout))
+    b = bands_of('float64', 3)
+    b[0] = [[nan] * cols for _ in range(rows)]
+    tc.append(dict(fn='true_color', dtypes=['float64'] * 3, kind='all-nan-red', bands=b, params=dict(nodata=0, c=10.0, th=0.125), dims=['y', 'x']))
+    one = [[[nan] * cols for _ in range(rows)] for _ in range(3)]
+    for k in range(3):
+        one[k][2][1] = float(5 + k)
+    tc.append(dict(fn='true_color', dtypes=['float32'] * 3, kind='single-valid', bands=one, params=dict(nodata=1, c=5.0, th=0.5), dims=['y', 'x']))
+    return idx, tc
+
+
+def run_band_sequence(ctx, ms, rng, pending, dask=False):
+    """call sequences: bands carrying coordinates and attrs are used once, then bands DERIVED from those objects (strided and
+    reversed slices, astype, copy) are used; every result must be the formula on the derived VALUES, and no call may change
+    the data, coordinates or attrs of its inputs.  With dask=True the first lazy result is computed only after the other calls"""
+    fn = rng.choice(['ndvi', 'savi', 'arvi', 'gci', 'evi', 'nbr2'])
+    nb = len(ARGS[fn])
+    rows, cols = 6, 7
+    dt = rng.choice(['float64', 'int32', 'uint16'])
+    bands = [[[gen_value(rng, dt, 'small') for _ in range(cols)] for _ in range(rows)] for _ in range(nb)]
+    params = dict(DEFAULTS.get(fn, {}))
+    base = dict(fn=fn, dtypes=[dt] * nb, kind='sequence', bands=bands, params=params, style='kw',
+                chunks=[[[2, 4], [3, 4]] for _ in range(nb)] if dask else None)
+    base['exact'] = is_exact_class(bands, params)
+    ys = [100.5 - 0.5 * i for i in range(rows)]
+    xs = [-3.0 + 30.0 * i for i in range(cols)]
+    arrs = [a.assign_coords(y=ys, x=xs).assign_attrs(res=(30.0, 0.5), nodata=0, units='dn') for a in build_arrays(base)]
+    snap = [(np.array(np.asarray(a.data), copy=True), dict(a.attrs), np.array(a['y'].values), np.array(a['x'].values)) for a in arrs]
+
+    def unchanged(label):
+        for k, (a, (d0, at0, y0, x0)) in enumerate(zip(arrs, snap)):
+            if not np.array_equal(np.asarray(a.data), d0) or dict(a.attrs) != at0 or \
+                    not np.array_equal(a['y'].values, y0) or not np.array_equal(a['x'].values, x0):
+                ctx.violation('oracle', '[call sequence, %s] %s changed the data / coordinates / attrs of band #%d' % (label, fn, k),
+                              dict(base, band_sequence=True, step=label))
+                return False
+        return True
+
+    def check(label, objs, case_d, lazy=None):
+        case_d = dict(case_d, exact=is_exact_class(case_d['bands'], params))
+        try:
+            res = lazy if lazy is not None else call_index(ms, case_d, objs)
+            out = out_lists(res)
+        except Exception as e:
+            ctx.violation('oracle', '[call sequence, %s] %s raised %s: %s' % (label, fn, type(e).__name__, e),
+                          dict(base, band_sequence=True, step=label))
+            return False
+        n0 = len(ctx.violations)
+        oracle_index(ctx, case_d, out)
+        for v in ctx.violations[n0:]:
+            v['what'] = '[call sequence, %s] %s' % (label, v['what'])
+            v['replay'] = dict(base, band_sequence=True, step=label)
+        pending.append((model_line(case_d), [v for r in out for v in r], dict(case_d, band_sequence=label), fn))
+        return len(ctx.violations) == n0 and unchanged(label)
+
+    def sub(rs, cs, dtype=None):
+        b2 = [[list(r[cs]) for r in b[rs]] for b in bands]
+        d = dict(base, bands=b2, chunks=None)
+        if dtype:
+            d['dtypes'] = [dtype] * nb
+            d['bands'] = [[[float(np.dtype(dtype).type(v)) for v in r] for r in b] for b in b2]
+        return d
+    first_lazy = call_index(ms, base, arrs) if dask else None
+    if not dask and not check('first call', arrs, base):
+        return
+    steps = [
+        ('bands[::2, ::3]', [a[::2, ::3] for a in arrs], sub(slice(None, None, 2), slice(None, None, 3))),
+        ('bands[::-1, ::-1]', [a[::-1, ::-1] for a in arrs], sub(slice(None, None, -1), slice(None, None, -1))),
+        ('astype(float32)', [a.astype('float32') for a in arrs], sub(slice(None), slice(None), dtype='float32')),
+        ('copy()[1:, :-1]', [a.copy()[1:, :-1] for a in arrs], sub(slice(1, None), slice(None, -1))),
+    ]
+    for label, objs, case_d in steps:
+        if not check(label, objs, case_d):
+            return
+    if dask:
+        check('the first lazy result, computed after the other calls', arrs, base, lazy=first_lazy)
+    else:
+        check('the same bands again', arrs, base)
+
+
 def run(ctx, model=True):
     ms = _impl()
     rng = ctx.rng
@@ -1188,6 +1318,21 @@ def run(ctx, model=True):
                         ctx.violation('oracle', '%s: scaling every band by 2^%d changed %r into %r (bands %r)' % (
                             scaled['fn'], scaled['scale_pow'], a, b, [bb[y][x] for bb in base['bands']]),
                             dict(scaled, cell=[y, x], got=b, original=a))
+    # ---- appended stream: theme audit ----
+    idx_cases, tc_cases = theme_cases(rng, ctx.quick())
+    for case in idx_cases:
+        case['style'] = 'kw'
+        case['exact'] = is_exact_class(case['bands'], case['params'])
+        ctx.case(case, nontrivial=nontrivial(case))
+        ctx.count('theme:%s%s/%s' % ('dask:' if case.get('chunks') is not None else '', case['fn'], case['kind']))
+        run_index_case(ctx, ms, case, pending)
+    for case in tc_cases:
+        ctx.case(case, nontrivial=True)
+        ctx.count('theme:true_color/%s' % case['kind'])
+        run_true_color(ctx, ms, case, pending)
+    for i in range(2 if ctx.quick() else 60):
+        ctx.count('theme:band-sequence%s' % ('/dask' if i % 2 else ''))
+        run_band_sequence(ctx, ms, rng, pending, dask=bool(i % 2))
     if model:
         compare_model(ctx, pending)
     ctx.exhaustive = False
@@ -1214,6 +1359,15 @@ def _fix(v):
 
 def replay_case(ctx, case):
     ms = _impl()
+    if case.get('band_sequence'):
+        import random
+        pending = []
+        for i in range(20):
+            run_band_sequence(ctx, ms, random.Random(ctx.seed * 1000 + i), pending, dask=bool(i % 2))
+            if ctx.violations:
+                break
+        compare_model(ctx, pending)
+        return
     if case.get('group') is not None:
         group = []
         for c in case['group']:
